@@ -1,14 +1,15 @@
 #!/usr/bin/env python3
 """Merge the results of tools/eval_all.py into seeded/<id>/meta.json and print the table of DESIGN §12.
 
-usage: tools/merge_eval.py <eval_out_dir> <commit> [<round>]
+usage: tools/merge_eval.py <eval_out_dir> <commit> [<round>] [--target-only]
   meta.json gains  evaluation = {commit, fired, concrete, infra}  (the first evaluation stays in checks_reporting),
   detected_by_target_check / checks_reporting are brought up to date, `round` is recorded when given.
 """
 import sys, os, json, glob
 VERIF = os.path.dirname(os.path.dirname(os.path.abspath(__file__)))
 out_dir, commit = sys.argv[1], sys.argv[2]
-rnd = int(sys.argv[3]) if len(sys.argv) > 3 else None
+rnd = int(sys.argv[3]) if len(sys.argv) > 3 and sys.argv[3].isdigit() else None
+target_only = "--target-only" in sys.argv        # results of EVAL_ONLY_TARGET=1: only the target property's check was run
 n = 0
 for f in sorted(glob.glob(os.path.join(out_dir, "C*.json"))):
     r = json.load(open(f))
@@ -20,6 +21,13 @@ for f in sorted(glob.glob(os.path.join(out_dir, "C*.json"))):
     if "first_evaluation" not in m:
         m["first_evaluation"] = dict(checks_reporting=m.get("checks_reporting", []),
                                      detected_by_target_check=m.get("detected_by_target_check"))
+    if target_only:
+        m["evaluation_target_only"] = dict(commit=commit, target=r["target"], target_concrete=r["target_concrete"], infra=r["infra"])
+        m["detected_by_target_check"] = r["target"]
+        m["target_concrete"] = r["target_concrete"]
+        json.dump(m, open(mp, "w"), indent=1)
+        n += 1
+        continue
     m["evaluation"] = dict(commit=commit, fired=r["fired"], concrete=r["concrete"], infra=r["infra"])
     m["checks_reporting"] = r["fired"]
     m["detected_by_target_check"] = r["target"]
